@@ -1,6 +1,7 @@
 CONSTANTS
   Ext <- AllExtensions
   Conv = "bundled"
+  Syntax <- SyntaxAsExt
   Defects = TRUE
   Mode = "sim"
   Kernel = "full"
